@@ -273,11 +273,12 @@ Record oks : Type := mk_oks {
   ok_new : option Z -> Prop;                 (* new_scope d _ followed by scope_enter (AFailAt; internally d = None) *)
   ok_genter : st -> gid -> Prop;             (* AGroupEnter: scope_enter of the group's scope *)
   ok_henter : st -> tid -> Prop;             (* first step of a child: scope_enter of its handle scope *)
-  ok_trun : st -> sid -> tmid -> Prop        (* ARun (HTimeout c tm) *)
+  ok_trun : st -> sid -> tmid -> Prop;       (* ARun (HTimeout c tm) *)
+  ok_cancel : st -> sid -> Prop              (* ACancel / AExtCancel: scope.cancel() on a scope named by the program *)
 }.
 
 Definition ok_always (e : st -> sid -> Prop) (d : st -> sid -> option Z -> Prop) (k : st -> Z -> Prop) : oks :=
-  mk_oks e d k (fun _ => True) (fun _ _ => True) (fun _ _ => True) (fun _ _ _ => True).
+  mk_oks e d k (fun _ => True) (fun _ _ => True) (fun _ _ => True) (fun _ _ _ => True) (fun _ _ => True).
 
 Record walk_hyps (R : st -> st -> Prop) (K : oks) : Prop := mk_walk_hyps {
   wh_refl : forall s, R s s;
@@ -290,9 +291,11 @@ Record walk_hyps (R : st -> st -> Prop) (K : oks) : Prop := mk_walk_hyps {
   wh_enter_g : forall s g t, ok_genter K s g -> R s (fst (scope_enter s (g_scope (groups s g)) t));
   wh_enter_h : forall s t, ok_henter K s t -> R s (fst (scope_enter s (k_hscope (tasks s t)) t));
   wh_exit : forall s c t exc, R s (fst (scope_exit s c t exc));
-  wh_cancel : forall s c, R s (scope_cancel s c false);
+  wh_cancel : forall s c, ok_cancel K s c -> R s (scope_cancel s c false);
+  wh_cancel_g : forall s g, R s (scope_cancel s (g_scope (groups s g)) false);
+  wh_cancel_h : forall s t, R s (scope_cancel s (k_hscope (tasks s t)) false);
   wh_setdl : forall s c d, ok_setdl K s c d -> R s (set_deadline_body s c d);
-  wh_add_group : forall s c, c < nscope s -> R s (add_group s c);
+  wh_group_new : forall s, R s (add_group (fst (new_scope s None false)) (nscope s));
   wh_spawn : forall s g sf, R s (fst (spawn_task s g sf));
   wh_sleep : forall s t f w, R s (set_ctl (suspend_on (fst (call_at s w (TSleep f))) t f) t (CSleep f (ntimer s)));
   wh_sleep0 : forall s t f, R s (set_ctl s t (CSleep f 0));
@@ -335,8 +338,14 @@ Section Walk.
   Lemma Rf_upd_group a b x g : (forall k, g_scope (g k) = g_scope k) -> R a b -> R a (upd_group b x g).
   Proof. intros Hg H. eapply Rf; [exact H|now apply frame_upd_group]. Qed.
 
-  Lemma Rf_cancel a b c : R a b -> R a (scope_cancel b c false).
-  Proof. intros H. eapply Rtrans; [exact H|apply (wh_cancel _ _ W)]. Qed.
+  Lemma Rf_cancel a b c : ok_cancel K b c -> R a b -> R a (scope_cancel b c false).
+  Proof. intros Hc H. eapply Rtrans; [exact H|now apply (wh_cancel _ _ W)]. Qed.
+
+  Lemma Rf_cancel_g a b g : R a b -> R a (scope_cancel b (g_scope (groups b g)) false).
+  Proof. intros H. eapply Rtrans; [exact H|apply (wh_cancel_g _ _ W)]. Qed.
+
+  Lemma Rf_cancel_h a b h : R a b -> R a (scope_cancel b (k_hscope (tasks b h)) false).
+  Proof. intros H. eapply Rtrans; [exact H|apply (wh_cancel_h _ _ W)]. Qed.
 
   Lemma Rp_exit a b c t exc s1 x : scope_exit b c t exc = (s1, x) -> R a b -> R a s1.
   Proof.
@@ -440,6 +449,7 @@ Section Walk.
     | ASetDeadline _ c d => ok_setdl K (begin_act s0 t) c d
     | AFailAt _ d _ => ok_new K d
     | AGroupEnter _ g => ok_genter K (upd_group (begin_act s0 t) g (gr_entered true)) g
+    | ACancel _ c => ok_cancel K (begin_act s0 t) c
     | _ => True
     end -> R s0 (fst (puppet_op s0 t o)).
   Proof.
@@ -452,7 +462,7 @@ Section Walk.
       destruct x; try (now apply Rf_ret).
       assert (H2 : R s0 (upd_task s1 t (tk_held None))) by (apply Rf_upd_task; [tkok|exact H1]).
       destruct (_ && _); now apply Rf_ret.
-    - (* ACancel *) apply Rf_ret, Rf_cancel, B.
+    - (* ACancel *) apply Rf_ret, Rf_cancel; [exact OK|exact B].
     - (* ASetShield *) destruct (Bool.eqb _ _); [now apply Rf_ret|]. apply Rf_ret.
       assert (H1 : R s0 (upd_scope s c (sc_shield b))).
       { eapply Rf; [exact B|]. apply frame_upd_scope. intros k; constructor; reflexivity. }
@@ -460,8 +470,8 @@ Section Walk.
     - (* ASetDeadline *) change (R s0 (fst (ret_to_puppet (set_deadline_body s c d) t (RRet 0)))).
       apply Rf_ret. eapply Rtrans; [exact B|]. now apply (wh_setdl _ _ W).
     - (* AGroupNew *) dpair s1 c E. apply Rf_ret.
-      change (R s0 (add_group s1 c)). eapply Rtrans; [eapply Rp_new_scope; eauto|].
-      apply (wh_add_group _ _ W). injection E as <- <-. cbn. lia.
+      change (R s0 (add_group s1 c)). injection E as <- <-. apply Rtrans with s; [exact B|].
+      change (R s (add_group (fst (new_scope s None false)) (nscope s))). apply (wh_group_new _ _ W).
     - (* AGroupEnter *) destruct (g_entered (groups s g)); [now apply Rf_ret|].
       dpair s2 e E. apply Rf_ret.
       assert (H1 : R s0 (upd_group s g (gr_entered true))) by (apply Rf_upd_group; auto).
@@ -476,8 +486,8 @@ Section Walk.
                                             (fun x => gr_excs (g_excs x ++ [(0, e)]) x)
                          | None => s
                          end)).
-      { destruct (k_held (tasks s t)) as [e|]; [|exact B]. destruct (is_cancel e); [now apply Rf_cancel|].
-        apply Rf_upd_group; auto. now apply Rf_cancel. }
+      { destruct (k_held (tasks s t)) as [e|]; [|exact B]. destruct (is_cancel e); [now apply Rf_cancel_g|].
+        apply Rf_upd_group; auto. now apply Rf_cancel_g. }
       set (s1 := match k_held (tasks s t) with Some e => _ | None => s end) in *.
       destruct (g_tasks (groups s1 g)); [|now apply R_aexit_wait].
       dpair s2 c E. apply Rf_blocked, Rf_set_ctl; [exact I|]. apply Rf_bare_yield. eapply Rp_new_enter; eauto.
@@ -486,7 +496,7 @@ Section Walk.
       apply Rf_blocked, Rf_set_ctl; [exact I|]. apply Rf_suspend. eapply Rp_spawn; eauto. eapply Rp_new_fut; eauto.
     - (* AStarted *) destruct (k_startfut (tasks s t)) as [f|]; [|now apply Rf_ret].
       destruct (f_st (futs s f)); try (now apply Rf_ret). apply Rf_ret. eapply Rf; [exact B|apply frame_fut_complete].
-    - (* AHandleCancel *) destruct (e_set _); [now apply Rf_ret|]. apply Rf_ret, Rf_cancel, B.
+    - (* AHandleCancel *) destruct (e_set _); [now apply Rf_ret|]. apply Rf_ret, Rf_cancel_h, B.
     - (* AHandleWait *) dpair s1 f E. apply Rf_blocked, Rf_set_ctl; [exact I|]. eapply Rp_event_wait; eauto.
     - (* AYield *) apply Rf_blocked, Rf_set_ctl; [exact I|]. now apply Rf_bare_yield.
     - (* ACkIf *) destruct (ckif_spins _ _ _); [|now apply Rf_ret].
@@ -546,7 +556,7 @@ Section Walk.
     - (* CAexitWait *)
       assert (H1 : R s0 (upd_group s g (gr_fut None))) by (apply Rf_upd_group; auto).
       destruct inc as [e|]; [|now apply R_aexit_wait].
-      apply R_aexit_wait. apply Rf_cancel. eapply Rf; [exact H1|].
+      apply R_aexit_wait. apply Rf_cancel_g. eapply Rf; [exact H1|].
       apply frame_upd_scope. intros k; constructor; reflexivity.
     - (* CAexitCk *)
       dpair s1 x E. pose proof (Rp_exit _ _ _ _ _ _ _ E B) as H1.
@@ -554,13 +564,13 @@ Section Walk.
       + destruct inc; now apply R_aexit_wait.
       + destruct inc as [e|]; [|now apply R_aexit_wait].
         destruct (is_cancel e); [|now apply R_aexit_raise_ret].
-        apply R_aexit_wait. now apply Rf_cancel.
+        apply R_aexit_wait. now apply Rf_cancel_g.
       + destruct inc; now apply R_aexit_raise_ret.
     - (* CStartWait *)
       destruct inc as [e|]; [|now apply Rf_ret].
       destruct (handle_pending s child); [|destruct (f_st (futs s _)); now apply Rf_ret].
       dpair s2 c E. dpair s4 wf E4. apply Rf_blocked, Rf_set_ctl; [exact I|].
-      eapply Rp_event_wait; [exact E4|]. eapply Rp_new_enter; [exact OkN|exact E|]. now apply Rf_cancel.
+      eapply Rp_event_wait; [exact E4|]. eapply Rp_new_enter; [exact OkN|exact E|]. now apply Rf_cancel_h.
     - (* CStartJoin *)
       dpair s2 x E.
       assert (H2 : R s0 s2).
@@ -596,10 +606,10 @@ Section Walk.
       eapply Rf; [exact H3|apply frame_fut_complete]. }
     assert (HC : forall a, R s0 a -> R s0 (if eff_cancelled a (g_scope (groups a g)) then a
                                            else scope_cancel a (g_scope (groups a g)) false)).
-    { intros a Ha. destruct (eff_cancelled a _); [exact Ha|now apply Rf_cancel]. }
+    { intros a Ha. destruct (eff_cancelled a _); [exact Ha|now apply Rf_cancel_g]. }
     assert (HC2 : forall a, R s0 a -> R s0 (if s_cancelled (scopes a (g_scope (groups a g))) then a
                                             else scope_cancel a (g_scope (groups a g)) false)).
-    { intros a Ha. destruct (s_cancelled _); [exact Ha|now apply Rf_cancel]. }
+    { intros a Ha. destruct (s_cancelled _); [exact Ha|now apply Rf_cancel_g]. }
     assert (HG : forall e, R s0 (upd_group s4 g (fun x => gr_excs (g_excs x ++ [(t, e)]) x)))
       by (intros; apply Rf_upd_group; auto).
     assert (HF : forall f v, R s0 (fut_complete s4 f v)) by (intros; eapply Rf; [exact H4|apply frame_fut_complete]).
@@ -657,6 +667,8 @@ Section Walk.
     | ASetDeadline t c d => ok_setdl K (begin_act s t) c d
     | AFailAt t d _ => ok_new K d
     | AGroupEnter t g => ok_genter K (upd_group (begin_act s t) g (gr_entered true)) g
+    | ACancel t c => ok_cancel K (begin_act s t) c
+    | AExtCancel c => ok_cancel K (set_running s None) c
     | ARun h => run_ok s h
     | ATick dt => ok_tick K s dt
     | _ => True
@@ -673,7 +685,7 @@ Section Walk.
     - destruct o; try discriminate Ea; try (cbn [fst]; apply Rrefl).
       + apply R_new_root.
       + cbn [fst]. apply Rframe, frame_task_cancel.
-      + cbn [fst]. eapply Rf; [|apply frame_set_running]. apply Rf_cancel. apply Rframe, frame_set_running.
+      + cbn [fst]. eapply Rf; [|apply frame_set_running]. apply Rf_cancel; [exact OK|]. apply Rframe, frame_set_running.
       + apply R_run_handle. exact OK.
       + destruct (Z.ltb dt 0); cbn [fst]; [apply Rrefl|]. now apply (wh_tick _ _ W).
   Qed.
